@@ -200,9 +200,19 @@ def ops_eval(ir, env):
         x = ops_eval(ir[3], env)
         p = dict(ir[2])
         op = ir[1]
+        # parameters are passed positionally, by keyword, or mixed, in rotation (a traced program must honour all three)
+        env["__calls__"] = style = env.get("__calls__", 0) + 1
         if op in ("sum", "prod", "amax", "amin", "logsumexp", "mean"):
+            if style % 3 == 1:
+                return getattr(ops, op)(x, axis=p.get("axis"), keepdims=p.get("keepdims", False))
+            if style % 3 == 2:
+                return getattr(ops, op)(x, p.get("axis"), keepdims=p.get("keepdims", False))
             return getattr(ops, op)(x, p.get("axis"), p.get("keepdims", False))
         if op in ("std", "var"):
+            if style % 3 == 1:
+                return getattr(ops, op)(x, axis=p.get("axis"), ddof=p.get("ddof", 0), keepdims=p.get("keepdims", False))
+            if style % 3 == 2:
+                return getattr(ops, op)(x, p.get("axis"), keepdims=p.get("keepdims", False), ddof=p.get("ddof", 0))
             return getattr(ops, op)(x, p.get("axis"), p.get("ddof", 0), p.get("keepdims", False))
         if op == "reshape":
             return ops.reshape(x, tuple(p["shape"]))
